@@ -88,7 +88,7 @@ const DAYS30: u32 = 2_592_000;
 fn c01(tier: Tier) -> Vec<SeqCfg> {
     let limit_val = vec![b'L'; 1024 - 8 - 2];
     let mut a = vec![
-        set(K1, b"", 0, 0),
+        set(K1, b"", 7, 0),
         set(K1, b"a", 0xdeadbeef, 0),
         set(K1, &all_bytes(), 0xffffffff, 2),
         set(K1, &limit_val, 0, 0),
